@@ -173,7 +173,15 @@ def harness_gen(binp, family, n, seed, mode, tier, timeout=3000, par=1):
             cmd += ['-shard', '%d/%d' % (i, par)]
         r = subprocess.run(cmd, stdout=subprocess.PIPE, stderr=subprocess.PIPE, text=True, env=GOENV)
         if r.returncode != 0:
-            raise HarnessCrash('harness %s gen -mode %s failed (exit %d): %s' % (family, mode, r.returncode, r.stderr[-3000:]))
+            e = HarnessCrash('harness %s gen -mode %s failed (exit %d): %s' % (family, mode, r.returncode, r.stderr[-3000:]))
+            starts = re.findall(r'^STARTING (\d+) (.*)$', r.stderr, re.M)
+            if starts:
+                try:
+                    e.input = json.loads(starts[-1][1])
+                except Exception:
+                    e.input = None
+            e.tail = '\n'.join(l for l in r.stderr.splitlines() if not l.startswith('STARTING'))[-2500:]
+            raise e
         return [json.loads(l) for l in r.stdout.splitlines() if l.strip()]
     if par <= 1:
         return one(0)
@@ -357,11 +365,16 @@ def main():
             try:
                 cs = harness_gen(binp, fam['name'], n, seed, mode, tier, par=fam.get('par', 1))
             except HarnessCrash as e:
-                # the implementation took the harness process down (fatal error, deadlock, timeout):
-                # nothing was observed, the property is no longer shown to hold
-                nofail.append(dict(family=fam['name'], kind='harness-crash',
-                                   what='the harness process running the implementation died in mode %s' % mode,
-                                   detail=str(e)[-2500:]))
+                # the implementation took the harness process down (unrecovered panic, fatal error,
+                # deadlock): the case that was running is the failing input
+                if getattr(e, 'input', None) is not None:
+                    violations.append(dict(family=fam['name'], kind='crash',
+                                           what='the process running the broker died while executing this input',
+                                           case=dict(input=e.input, obs=getattr(e, 'tail', ''))))
+                else:
+                    nofail.append(dict(family=fam['name'], kind='harness-crash',
+                                       what='the harness process running the implementation died in mode %s' % mode,
+                                       detail=str(e)[-2500:]))
                 continue
             for c in cs:
                 c['_src'] = mode
@@ -498,7 +511,12 @@ def do_replay(pid, P, binp, work, path):
                          replay=case)
         log(json.dumps({k: v for k, v in res.items() if k != 'sigs'}, indent=1, default=str)[:4000])
         return 1 if res.get('failures') else 0
-    res = harness_run(binp, famname, [case['input']])
+    try:
+        res = harness_run(binp, famname, [case['input']])
+    except RuntimeError as e:
+        log('the process running the broker died on this input:', str(e)[-1500:])
+        log('VIOLATION property=%s replay=%s' % (pid, path))
+        return 1
     M, O = evaluate(work, fam['corr'], res)
     log('input      :', json.dumps(case['input'])[:3000])
     log('observed   :', json.dumps(res[0].get('obs'))[:3000])
